@@ -260,17 +260,17 @@ func (g *GroupSet) resultWriteUnformatted(query *Query, rows []result, fd *os.Fi
 }
 
 func (g *GroupSet) resultWriteUnformattedHeader(query *Query, fd *os.File, lastColumn int) (err error) {
+	// Write the header in one piece. An interrupted client would otherwise leave a
+	// partial header behind, which is never repaired in append mode.
+	var sb strings.Builder
 	for i, sc := range query.Select {
-		if _, err = fd.WriteString(sc.FieldStorage); err != nil {
-			return
-		}
+		sb.WriteString(sc.FieldStorage)
 		if i == lastColumn {
 			continue
 		}
-		if _, err = fd.WriteString(protocol.CSVDelimiter); err != nil {
-			return
-		}
+		sb.WriteString(protocol.CSVDelimiter)
 	}
-	_, err = fd.WriteString("\n")
+	sb.WriteString("\n")
+	_, err = fd.WriteString(sb.String())
 	return
 }
